@@ -312,11 +312,7 @@ impl Database {
                 continue;
             }
 
-            let all_null = index_plan
-                .col_indices
-                .iter()
-                .all(|&idx| params.get(idx).map(|v| v.is_null()).unwrap_or(true));
-            if all_null {
+            if Self::index_key_has_null(index_plan, params) {
                 continue;
             }
 
@@ -407,7 +403,20 @@ impl Database {
             let mut index_storage_guard = index_storage_arc.write();
             let index_root = Self::get_index_root(index_plan, &index_storage_guard)?;
 
+            // Same entries as execute_insert (UPDATE and DELETE look for exactly these): a
+            // UNIQUE / PRIMARY KEY index has no entry for a key with a NULL column, a
+            // non-unique index key ends with the row key.
+            let unique = index_plan.is_unique || index_plan.is_pk;
+            if unique && Self::index_key_has_null(index_plan, params) {
+                continue;
+            }
             Self::build_index_key(index_plan, params);
+            if !unique {
+                index_plan
+                    .key_buffer
+                    .borrow_mut()
+                    .extend_from_slice(&row_id_bytes);
+            }
             let key_buf_guard = index_plan.key_buffer.borrow();
 
             let index_rightmost = index_plan.rightmost_hint.get();
@@ -610,6 +619,16 @@ impl Database {
         let root = header.root_page();
         index_plan.root_page.set(root);
         Ok(root)
+    }
+
+    fn index_key_has_null(
+        index_plan: &crate::database::prepared::CachedIndexPlan,
+        params: &[OwnedValue],
+    ) -> bool {
+        index_plan
+            .col_indices
+            .iter()
+            .any(|&idx| params.get(idx).is_none_or(|v| v.is_null()))
     }
 
     fn build_index_key(
